@@ -142,19 +142,44 @@ pub fn gen_ptype(rng: &mut Rng, c: &StrCfg, near: u32, big: u32) -> PType {
 /// pre-allocation chunk for its element type (so that decoding it takes the
 /// multi-chunk path), elements as small as possible.
 pub fn gen_bulk_ptype(rng: &mut Rng, near: u32) -> PType {
-    let id = |rng: &mut Rng| rng.below(near as u64 + 1) as u32;
+    // tail-loaded (half of the time): every element refers to entry 0 except
+    // the last few, which hold the only reference to the highest entry - what a
+    // loop that stops early (at 255, 256, 1024, ...) would never see
+    let tail = rng.permille(500);
+    let count = std::cell::Cell::new(0u32);
+    let total = std::cell::Cell::new(0u32);
+    let id = |rng: &mut Rng| {
+        let k = count.get();
+        count.set(k + 1);
+        if tail {
+            if k + 3 >= total.get() { near } else { 0 }
+        } else {
+            rng.below(near as u64 + 1) as u32
+        }
+    };
     let fld = |rng: &mut Rng| PField { name: None, ty: id(rng), type_name: None, docs: vec![] };
     let mut t = PType { path: vec![], params: vec![], def: PDef::Primitive(0), docs: vec![] };
     match rng.below(6) {
         0 => t.docs = vec![String::new(); rng.range(683, 1500) as usize],
-        1 => t.def = PDef::Tuple((0..rng.range(4097, 9000)).map(|_| id(rng)).collect()),
-        2 => t.def = PDef::Composite((0..rng.range(200, 700)).map(|_| fld(rng)).collect()),
+        1 => {
+            let n = rng.range(4097, 9000) as u32;
+            total.set(n);
+            t.def = PDef::Tuple((0..n).map(|_| id(rng)).collect())
+        }
+        2 => {
+            let n = rng.range(200, 700) as u32;
+            total.set(n);
+            t.def = PDef::Composite((0..n).map(|_| fld(rng)).collect())
+        }
         3 => {
+            let n = rng.range(200, 700) as u32;
+            // one field per variant when tail-loaded, else a field in every tenth
+            total.set(n);
             t.def = PDef::Variant(
-                (0..rng.range(200, 700))
+                (0..n)
                     .map(|i| PVariant {
                         name: String::new(),
-                        fields: if rng.permille(100) { vec![fld(rng)] } else { vec![] },
+                        fields: if tail || rng.permille(100) { vec![fld(rng)] } else { vec![] },
                         index: i as u8,
                         docs: vec![],
                     })
@@ -162,7 +187,11 @@ pub fn gen_bulk_ptype(rng: &mut Rng, near: u32) -> PType {
             )
         }
         4 => t.path = vec!["p".to_string(); rng.range(683, 1500) as usize],
-        _ => t.params = (0..rng.range(400, 900)).map(|_| (String::new(), Some(id(rng)))).collect(),
+        _ => {
+            let n = rng.range(400, 900) as u32;
+            total.set(n);
+            t.params = (0..n).map(|_| (String::new(), Some(id(rng)))).collect()
+        }
     }
     t
 }
